@@ -343,6 +343,22 @@ def pure_call(fn, *args, **kwargs):
     return res
 
 
+def pure_call_u(fn, *args, **kwargs):
+    """pure_call with snapshots that ignore the iteration order of the top-level dict (see snapshot_unordered)"""
+    tolerate = kwargs.pop("_tolerate", ())
+    before = [snapshot_unordered(a) for a in args] + [snapshot_unordered(v) for v in kwargs.values()]
+    res = None
+    try:
+        res = fn(*args, **kwargs)
+    except tolerate:
+        pass            # a documented refusal; the arguments must be intact all the same
+    after = [snapshot_unordered(a) for a in args] + [snapshot_unordered(v) for v in kwargs.values()]
+    for i, (b, a) in enumerate(zip(before, after)):
+        if b != a:
+            raise PurityError("argument %d mutated by %s: %r -> %r" % (i, getattr(fn, '__name__', fn), b, a))
+    return res
+
+
 # ------------------------------------------------------- findings / output ----
 def load_known_findings():
     path = os.path.join(VERIF, "known_findings.txt")
@@ -374,8 +390,11 @@ def write_replay(prop, body):
 
 
 def write_evidence(prop, ev):
-    os.makedirs(os.path.join(VERIF, "evidence"), exist_ok=True)
-    path = os.path.join(VERIF, "evidence", prop + ".json")
+    # VERIF_EVIDENCE_DIR: used only by tools/seed_eval.py so that runs against mutated scratch trees do not
+    # overwrite the evidence of the real tree
+    d = os.environ.get("VERIF_EVIDENCE_DIR") or os.path.join(VERIF, "evidence")
+    os.makedirs(d, exist_ok=True)
+    path = os.path.join(d, prop + ".json")
     with open(path, "w") as f:
         json.dump(ev, f, indent=1, default=str)
     return path
